@@ -11,7 +11,7 @@ projected component tree must equal the tree TLC emitted (kinds, names, qualifie
 argument order, literal values). Layouts: sequences of trees are written with different whitespace,
 newlines and ~comments~ between components and with an outer comment without mode settings; all
 layouts must project to the same trees, and for runnable generated programs the traces of
-different layouts are all validated by RunTrace (same run). A second generator covers every
+different layouts must be one run, call by call and in the final state (spec/SameRun.tla). A second generator covers every
 function name registered in the factory, with an arity found by structural validation."""
 import json
 import os
@@ -284,15 +284,25 @@ def main(tier):
     nr = 120 if tier == "quick" else 2500
     traces, infos = run_layouts(nr)
     if traces:
-        resv, verdicts = runtrace.validate(traces)
-        rep.add_tlc("RunTrace: the same generated program under different layouts", resv)
-        rej = [t for t in traces if verdicts[t["tid"]][0] != "ok"]
-        if rej:
-            r2, v2 = runtrace.validate(rej, dev=("AboveCellsAsText", "LtIsLe"))
-            rep.add_tlc("RunTrace with the deviations of C01's known findings", r2)
-            for t in rej:
-                if v2[t["tid"]][0] != "ok":
-                    rep.violation({"kind": "layout-run", "field": verdicts[t["tid"]][0], **infos[t["tid"]]})
+        # the same program under three layouts must be ONE run (spec/SameRun.tla); what the run should be is not judged here
+        from lib import samerun
+
+        bycase = {}
+        for t in traces:
+            bycase.setdefault(t["tid"] // 4, []).append(t)
+        cases = []
+        for cid, ts in bycase.items():
+            ts.sort(key=lambda t: t["tid"])
+            if len(ts) >= 2:
+                cases.append(samerun.case(cid, ts[0], [samerun.other(t, "same", lines=True, unmatched=False) for t in ts[1:]]))
+        resv, sv = samerun.validate(cases)
+        rep.add_tlc("SameRun: the same generated program under different layouts", resv)
+        for c in cases:
+            v = sv[c["tid"]]
+            if v["verdict"] != "ok":
+                ts = bycase[c["tid"]]
+                rep.violation({"kind": "layout-run", "field": v["verdict"], "at_call": v.get("expected"),
+                               "layout_a": infos[ts[0]["tid"]], "layout_b": infos[ts[min(v["at"], len(ts) - 1)]["tid"]]})
     rep.traces = len(recs) + len(seqs) + len(calls) + len(traces)
     rep.evaluations = rep.traces
     for r in recs:
